@@ -527,6 +527,39 @@ func CanStep(d map[uint64]GInfo, self uint64) bool {
 	return false
 }
 
+// LockHeldForGood evaluates, on one dump, the witness for "this call can never
+// return": goroutine probe is parked acquiring a sync.Mutex / sync.RWMutex
+// below a function whose name contains frame; every other goroutine that has
+// such a function on its stack is itself parked in a sync primitive (so
+// whoever holds the lock cannot release it); and no goroutine can take a step.
+func LockHeldForGood(d map[uint64]GInfo, probe uint64, frame string) (bool, string) {
+	pg, ok := d[probe]
+	if !ok || !strings.Contains(pg.Stack, frame) {
+		return false, ""
+	}
+	switch pg.State {
+	case "sync.Mutex.Lock", "sync.RWMutex.Lock", "sync.RWMutex.RLock":
+	default:
+		return false, ""
+	}
+	if CanStep(d, GoID()) {
+		return false, ""
+	}
+	wit := pg.Stack
+	for id, gi := range d {
+		if id == probe || !strings.Contains(gi.Stack, frame) {
+			continue
+		}
+		if !strings.HasPrefix(gi.State, "sync.") && !strings.HasPrefix(gi.State, "semacquire") {
+			return false, ""
+		}
+		if len(wit) < 6000 {
+			wit += "\n\n" + gi.Stack
+		}
+	}
+	return true, wit
+}
+
 // InnermostNonRuntime returns the innermost frame of goroutine g that does
 // not belong to the runtime, sync or internal packages ("" if unknown).
 func InnermostNonRuntime(d map[uint64]GInfo, g uint64) string {
